@@ -89,7 +89,7 @@ def edit_torrent(metafile: str, args: dict) -> dict:
     if "source" in args:
         info["source"] = args["source"]
 
-    if "private" in args:
+    if args.get("private"):
         info["private"] = 1
 
     if "announce" in args:
